@@ -5,12 +5,18 @@ Design:   TLC runs SetupMC.tla: the checks of pysph's set-up chain
           the stepper checks of IntegratorCythonHelper) as a small state
           machine over EVERY case of a universe of problem definitions
           (equation shape x symbols x sources x group structure x api x one
-          removed name / misspelt array).  Three side runs measure the model:
-          the mechanism as the code is ("explicit": method signatures only)
-          against the bare contract - TLC must find the discrepancy by
-          itself; the repaired mechanism ("closure") - the contract must
-          hold; no property check at all ("none") - the known finding must
-          not explain it.
+          removed name / misspelt array; several instances of one equation
+          class on one destination; integrators over several arrays in
+          several orders).  The complete run uses the mechanism the code
+          follows ("closure": explicit names and the closure of the symbol
+          table, since the repair of C20-symbol-requirements-unchecked): the
+          bare contract must hold on every case.  Side runs measure that the
+          universe is sensitive: with the mechanism before the repair
+          ("explicit": method signatures only), with no property check
+          ("none"), with equations of an already checked class and dest
+          skipped ("dedup") and with only the last stepper checked
+          ("laststepper") TLC must find, by itself, a case violating the
+          contract.
 Binding:  (spec -> code) TLC prints every case; checks/c20_driver.py builds
           the real ParticleArrays, generated probe Equation / IntegratorStep
           classes, Groups, MultiStageEquations and runs AccelerationEval,
@@ -23,11 +29,13 @@ Binding:  (spec -> code) TLC prints every case; checks/c20_driver.py builds
           TraceSetup.tla decides every recorded outcome (VERDICT records);
           Python only dispatches on them.  Only findings of status "known"
           in known_findings.json can explain a failure.
-Selftest: --selftest (1) runs everything against a private patched copy of
-          pysph.sph.acceleration_eval (the proposed repair, driver processes
-          only): no failure, no known-finding hit expected; (2) seeds two
-          defects in the driver processes: violations expected; (3) corrupts
-          recorded outcomes: the verdicts must change.
+Selftest: --selftest (1) while the repair is not in the tree: runs
+          everything against a private patched copy of
+          pysph.sph.acceleration_eval (driver processes only): no failure,
+          no known-finding hit expected; (2) seeds four defects in the
+          driver processes (no check, equation not named, (class, dest)
+          checked once, only the last stepper checked): violations expected;
+          (3) corrupts recorded outcomes: the verdicts must change.
 """
 import json
 import os
@@ -43,22 +51,37 @@ from mbv.harness import Check, MachineryError, main   # noqa: E402
 # design universes per tier (constants of SetupMC.tla; value sets by name)
 UNIVERSES = {
     'quick': [dict(SymSets='SymsQ', Shapes='ShapesQ', SrcOpts='SrcQ',
-                   Pairs='PairsQ', Wide='FALSE', Combo='FALSE')],
+                   Pairs='PairsQ', Wide='FALSE', Combo='FALSE',
+                   DupShapes='DupShapesQ', DupSyms='DupSymsQ',
+                   DupOpts='DupOptsQ', DupPairs='DupPairsQ',
+                   StepStructs='StepStructsQ', StepOrders='StepOrdersQ')],
     'thorough': [dict(SymSets='SymsT', Shapes='ShapesQ', SrcOpts='SrcQ',
-                      Pairs='PairsT', Wide='TRUE', Combo='FALSE'),
+                      Pairs='PairsT', Wide='TRUE', Combo='FALSE',
+                      DupShapes='DupShapesQ', DupSyms='DupSymsT',
+                      DupOpts='DupOptsT', DupPairs='DupPairsT',
+                      StepStructs='StepStructsT', StepOrders='StepOrdersT'),
                  dict(SymSets='SymsC', Shapes='ShapesT', SrcOpts='SrcQ',
-                      Pairs='PairsC', Wide='FALSE', Combo='TRUE')],
+                      Pairs='PairsC', Wide='FALSE', Combo='TRUE',
+                      DupShapes='DupShapesQ', DupSyms='DupSymsQ',
+                      DupOpts='DupOptsQ', DupPairs='DupPairsQ',
+                      StepStructs='StepStructsQ', StepOrders='StepOrdersQ')],
 }
-SHIPPED_CAP = {'quick': 3, 'thorough': 0}      # names per class and role
+SETS = ('SymSets', 'Shapes', 'SrcOpts', 'Pairs', 'DupShapes', 'DupSyms',
+        'DupOpts', 'DupPairs', 'StepStructs', 'StepOrders')
+SHIPPED_CAP = {'quick': 2, 'thorough': 0}      # names per class and role
 NEXEC = {'quick': 0, 'thorough': 3}            # complete problems compiled
 INPUT_KEYS = ('api', 'structure', 'arrays', 'eqs', 'steppers')
 DRIVER = 'checks/c20_driver.py'
+FINDING = 'C20-symbol-requirements-unchecked'
+# mechanism variants of SetupMC.tla that must violate the bare contract:
+# the code before the repair of FINDING, and seeded defects
+DEFECT_VARIANTS = ('explicit', 'none', 'dedup', 'laststepper')
 
 
 def write_cfg(path, u, variant, known, invariants, emit):
     with open(path, 'w') as fp:
         fp.write('SPECIFICATION Spec\nCONSTANTS\n')
-        for k in ('SymSets', 'Shapes', 'SrcOpts', 'Pairs'):
+        for k in SETS:
             fp.write('  %s <- %s\n' % (k, u[k]))
         fp.write('  Combo = %s\n  Wide = %s\n' % (u['Combo'], u['Wide']))
         fp.write('  Variant = "%s"\n' % variant)
@@ -79,47 +102,48 @@ def run_tlc(cfg, workers):
 
 
 def design(chk):
-    """Design runs.  -> (cases printed by TLC, info for the evidence)."""
+    """Design runs.  -> (cases printed by TLC, info for the evidence).
+
+    The complete run uses the mechanism the code is recorded to follow:
+    while FINDING has status "known" the explicit-names mechanism, whose
+    departures from the contract must all be that finding; once it is fixed
+    the repaired mechanism ("closure"), for which the bare contract must
+    hold.  Side runs: each variant of DEFECT_VARIANTS must make TLC find a
+    case violating the bare contract (the universe is sensitive to it)."""
     sc = chk.scratch
+    known = bool(chk.known(FINDING))
+    variant = 'explicit' if known else 'closure'
     cases, seen = [], set()
-    info = dict(states=0, transitions=0, universes=[], discrepancy='',
-                sensitivity='')
+    info = dict(states=0, transitions=0, universes=[], variant=variant,
+                sensitivity={})
     for ui, u in enumerate(UNIVERSES[chk.tier]):
         def cfg(tag, *a):
             p = os.path.join(sc, 'mc-%d-%s.cfg' % (ui, tag))
             write_cfg(p, u, *a)
             return p
-        c_disc = cfg('disc', 'explicit', False, ['Contract'], False)
-        c_fix = cfg('fix', 'closure', False, ['Functional', 'Contract'],
-                    False)
-        c_none = cfg('none', 'none', True, ['ContractOrKnown'], False)
-        c_full = cfg('full', 'explicit', True,
-                     ['Functional', 'ContractOrKnown'], True)
+        side = [(v, cfg(v, v, False, ['Contract'], False))
+                for v in DEFECT_VARIANTS]
+        c_full = cfg('full', variant, known,
+                     ['Functional', 'ContractOrKnown' if known
+                      else 'Contract'], True)
         with ThreadPoolExecutor(max_workers=4) as ex:
-            f_disc = ex.submit(run_tlc, c_disc, 2)
-            f_fix = ex.submit(run_tlc, c_fix, 3)
-            f_none = ex.submit(run_tlc, c_none, 2)
-            full = run_tlc(c_full, 8)
-            disc, fix, none = f_disc.result(), f_fix.result(), f_none.result()
+            fs = [(v, ex.submit(run_tlc, c, 2)) for v, c in side]
+            full = run_tlc(c_full, 6)
+            found = [(v, f.result()) for v, f in fs]
         if not full['ok']:
             raise MachineryError(
-                'design model (mechanism as the code is): %s violated - a '
-                'departure from the contract that no known finding '
-                'explains\n%s' % (full['violation'], full['out'][-2500:]))
-        if disc['violation'] != 'Contract':
-            raise MachineryError(
-                'universe %d: TLC did not find the discrepancy between the '
-                'explicit-names mechanism and the contract\n%s' % (
-                    ui, disc['out'][-1500:]))
-        if not fix['ok']:
-            raise MachineryError(
-                'universe %d: the repaired mechanism violates %s\n%s' % (
-                    ui, fix['violation'], fix['out'][-2500:]))
-        if none['violation'] != 'ContractOrKnown':
-            raise MachineryError(
-                'universe %d is not sensitive to a missing property check '
-                '(or the known finding masks it)\n%s' % (
-                    ui, none['out'][-1500:]))
+                'design model (mechanism %s): %s violated - a departure '
+                'from the contract that no known finding explains\n%s' % (
+                    variant, full['violation'], full['out'][-2500:]))
+        for v, r in found:
+            if r['violation'] != 'Contract':
+                raise MachineryError(
+                    'universe %d is not sensitive to the defect %r (TLC '
+                    'found no case violating the contract)\n%s' % (
+                        ui, v, r['out'][-1500:]))
+            if v not in info['sensitivity']:
+                st = tlc.counterexample(r['out'])
+                info['sensitivity'][v] = st[-1]['text'][:2500] if st else ''
         got = tlc.parse_prints(full['out'], 'CASE')
         new = 0
         for c in got:
@@ -134,11 +158,6 @@ def design(chk):
         info['transitions'] += full['generated']
         info['universes'].append(dict(constants=u, cases=len(got), new=new,
                                       states=full['distinct']))
-        if not info['discrepancy']:
-            st = tlc.counterexample(disc['out'])
-            info['discrepancy'] = st[-1]['text'][:3000] if st else ''
-            st = tlc.counterexample(none['out'])
-            info['sensitivity'] = st[-1]['text'][:3000] if st else ''
     return cases, info
 
 
@@ -264,14 +283,22 @@ def judge(chk, by_tr, symv, casev):
                 chk.known_hit(k)
             continue
         who = tr.get('cls') or ','.join(
-            '%s(d=%s s=%s syms=%s)' % (e['name'], e['d'], e['s'], e['syms'])
-            for e in tr['eqs'])
+            '%s(%s<-%s d=%s s=%s syms=%s)' % (
+                e['name'], e['dest'], e['sources'], e['d'], e['s'],
+                e['syms']) for e in tr['eqs'])
+        if tr['steppers']:
+            who += ' steppers ' + ','.join(
+                '%s=%s(d=%s)' % (x['array'], x['name'], x['d'])
+                for x in tr['steppers'])
+        allp = set(p for a in tr['arrays'] for p in a['props'])
+        lacks = ['%s lacks %s' % (a['name'], sorted(allp - set(a['props'])))
+                 for a in tr['arrays'] if allp - set(a['props'])]
         chk.violation(
             'clauses %s fail (expected %s): %s [%s/%s] arrays %s -> %s' % (
                 sorted(v['failed']), v['expected'], who, tr['api'],
                 tr['structure'],
                 ['%s lacks %s' % (tr['removed'][0], tr['removed'][1])]
-                if tr.get('removed') else '', describe(tr)),
+                if tr.get('removed') else lacks, describe(tr)),
             dict(case=inputs_of(tr), id=v['id'], execute=tr.get('execute'),
                  out=tr['out'], verdict=v))
     return nfail
@@ -322,23 +349,30 @@ def corrupt(t):
 def selftest(chk, cases, known_ids):
     ok = True
     # (1) the proposed repair, on a private copy loaded by the drivers
-    sym, traces = drive(chk, cases, 'p', mode='patched')
-    symv, casev, _ = validate(chk, sym, traces, 'pv')
-    bad = [v for v in casev if v['failed']]
-    onlyc = sum(1 for v in casev if v['mech'] == ['closure'])
-    nom = sum(1 for v in casev if 'closure' not in v['mech'])
-    print('C20 selftest (1) patched acceleration_eval: %d cases, %d with '
-          'failed clauses, %d predicted only by the repaired mechanism, '
-          '%d not predicted by it' % (len(casev), len(bad), onlyc, nom))
-    by = {t['id']: t for t in traces}
-    for v in bad[:5]:
-        print('  FAILED %s %s: %s' % (v['id'], v['failed'],
-                                      describe(by[v['id']])))
-        ok = False
+    if chk.known(FINDING):
+        sym, traces = drive(chk, cases, 'p', mode='patched')
+        symv, casev, _ = validate(chk, sym, traces, 'pv')
+        bad = [v for v in casev if v['failed']]
+        onlyc = sum(1 for v in casev if v['mech'] == ['closure'])
+        nom = sum(1 for v in casev if 'closure' not in v['mech'])
+        print('C20 selftest (1) patched acceleration_eval: %d cases, %d '
+              'with failed clauses, %d predicted only by the repaired '
+              'mechanism, %d not predicted by it' % (len(casev), len(bad),
+                                                     onlyc, nom))
+        by = {t['id']: t for t in traces}
+        for v in bad[:5]:
+            print('  FAILED %s %s: %s' % (v['id'], v['failed'],
+                                          describe(by[v['id']])))
+            ok = False
+    else:
+        print('C20 selftest (1) skipped: %s is not of status "known" (the '
+              'repair is in the tree)' % FINDING)
     # (2) seeded defects in the driver processes
-    sub = [c for c in cases if c['leg'] == 'universe'][:1600]
+    sub = [c for c in cases if c['leg'] == 'universe']
     for mode, clause in (('nocheck', 'RejectIncomplete'),
-                         ('noname', 'NamesEquation')):
+                         ('noname', 'NamesEquation'),
+                         ('dedup', 'RejectIncomplete'),
+                         ('laststepper', 'RejectIncomplete')):
         sym, traces = drive(chk, sub, 'm' + mode, mode=mode)
         symv, casev, _ = validate(chk, sym, traces, 'mv' + mode)
         caught = [v for v in casev if clause in v['failed'] and
@@ -465,15 +499,21 @@ def check(chk):
         transitions=info['transitions'] or st['generated'],
         design_model='SetupMC.tla; universes: %s' % json.dumps(
             info.get('universes', [])),
-        design_result='mechanism as the code is (explicit argument names '
-                      'only) vs the bare contract: TLC finds the '
-                      'discrepancy (design_discrepancy); repaired mechanism '
-                      '(symbol closure): Contract holds on every case; no '
-                      'property check: not explained by the known finding '
-                      '(design_sensitivity); Functional and ContractOrKnown '
-                      'hold for the mechanism as it is',
-        design_discrepancy=info.get('discrepancy', ''),
-        design_sensitivity=info.get('sensitivity', ''),
+        design_result=(
+            'complete run with the mechanism "%s" (%s): Functional and %s '
+            'hold on every case.  Side runs, each against the bare contract: '
+            'the mechanism before the repair of %s ("explicit": argument '
+            'names only), no property check ("none"), equations of an '
+            'already checked class and dest skipped ("dedup"), only the '
+            'last stepper checked ("laststepper") - TLC finds a violating '
+            'case for each (design_sensitivity)' % (
+                info.get('variant'),
+                'explicit names plus the closure of the symbol table; the '
+                'code since the repair' if info.get('variant') == 'closure'
+                else 'explicit argument names only; the code as it is',
+                'the bare Contract' if info.get('variant') == 'closure'
+                else 'ContractOrKnown', FINDING)),
+        design_sensitivity=info.get('sensitivity', {}),
         symbol_table=dict(
             symbols=symv[0]['nsyms'], differing=symv[0]['tabdiff'],
             bound='table read from the source text of precomputed_symbols() '
